@@ -359,3 +359,76 @@ func H_C18_server_packet() {
 	}
 	vCover("end")
 }
+
+// two clients, one request each, queued before the loop starts: every response goes to the address its request came
+// from (the address travels with the request, not with the loop), and nothing else arrives there.
+func c18twoClients(srv *net.UDPConn, tag string, start func()) {
+	var clis [2]*net.UDPConn
+	for i := range clis {
+		c, err := net.ListenUDP("udp", &net.UDPAddr{IP: net.IPv4(127, 0, 0, 1)})
+		if err != nil {
+			return
+		}
+		defer c.Close()
+		clis[i] = c
+	}
+	ids := [2]uint16{vU16("txid0"), vU16("txid1")}
+	vAssume(ids[0] != ids[1])
+	for i := 0; i < 2; i++ {
+		p := &NBTNSPacket{Header: NBTNSHeader{TransactionID: ids[i], Flags: 0, Questions: 1}}
+		p.Questions = append(p.Questions, NBTNSQuestion{Name: &NetBIOSName{Name: "ALPHA"}, Type: 0x20, Class: 1})
+		raw, _ := p.Marshal()
+		clis[i].WriteToUDP(raw, srv.LocalAddr().(*net.UDPAddr))
+	}
+	start()
+	time.Sleep(300 * time.Millisecond)
+	buf := make([]byte, 600)
+	for i := 0; i < 2; i++ {
+		clis[i].SetReadDeadline(time.Now().Add(time.Second))
+		n, _, err := clis[i].ReadFromUDP(buf)
+		vCheck(err == nil, tag+"/each-client-gets-a-response")
+		if err != nil {
+			continue
+		}
+		var resp NBTNSPacket
+		_, err = resp.Unmarshal(buf[:n])
+		vCheck(err == nil && resp.Header.TransactionID == ids[i], tag+"/response-goes-to-the-client-that-asked")
+		clis[i].SetReadDeadline(time.Now().Add(200 * time.Millisecond))
+		_, _, err = clis[i].ReadFromUDP(buf)
+		vCheck(err != nil, tag+"/no-foreign-response")
+	}
+}
+
+func H_C18_udp_serve_two_clients() {
+	runtime.GOMAXPROCS(1)
+	table := c18table(true)
+	srv, err := net.ListenUDP("udp", &net.UDPAddr{IP: net.IPv4(127, 0, 0, 1)})
+	if err != nil {
+		return
+	}
+	s := &UDPServer{nbtns: table, conn: srv, handlers: NewPacketHandler(table), quit: make(chan struct{})}
+	c18twoClients(srv, "udp-serve-2", func() {
+		s.wg.Add(1)
+		go s.serve()
+	})
+	close(s.quit)
+	srv.Close()
+	vCover("end")
+}
+
+func H_C18_server_serve_two_clients() {
+	runtime.GOMAXPROCS(1)
+	table := c18table(true)
+	srv, err := net.ListenUDP("udp", &net.UDPAddr{IP: net.IPv4(127, 0, 0, 1)})
+	if err != nil {
+		return
+	}
+	s := &Server{nbtns: table, listener: srv, quit: make(chan struct{})}
+	c18twoClients(srv, "server-serve-2", func() {
+		s.wg.Add(1)
+		go s.serve()
+	})
+	close(s.quit)
+	srv.Close()
+	vCover("end")
+}
